@@ -21,42 +21,49 @@ func allSpecs() map[string]*PropSpec {
 	}
 	add(&PropSpec{
 		ID:          "C15",
-		Explanation: "History independence (responses are a function of the current contents, not of how the server got there): the workspace freshness rules C12-CLEAR / C12-REFRESH / C12-PAIR / T1 / T2, the loader cache rules G-CACHEPATH / G-CACHEINDEP / G-STATE / G-INVALIDATE and C-CACHE (per-document caches dropped on change). M-ORDER: every range over a Go map and every sync.Map.Range callback in non-test module code is classified by the effects of its body (interprocedural, parametric summaries); a loop whose iteration order can reach a response, notification or persistent index without passing a total sort is reported. Decides the map-order clause of determinism for all 2^n iteration orders at once.",
+		Technique:   "effect analysis of every range-over-map, sync.Map.Range and channel-receive loop (append/overwrite/exit effects with key aliases and sort sanitisers), history-independence rules of loader cache and workspace index",
+		Explanation: "History independence (responses are a function of the current contents, not of how the server got there): the workspace freshness rules C12-CLEAR / C12-REFRESH / C12-PAIR / T1 / T2, the loader cache rules G-CACHEPATH / G-CACHEINDEP / G-STATE / G-INVALIDATE and C-CACHE (per-document caches dropped on change). M-ORDER: every range over a Go map and every sync.Map.Range callback in non-test module code is classified by the effects of its body (interprocedural, parametric summaries); a loop whose iteration order can reach a response, notification or persistent index without passing a total sort is reported. Decides the map-order clause of determinism for all 2^n iteration orders at once. Loops that receive values from a channel are judged like map loops (arrival order depends on scheduling).",
 		NotDecided:  "non-determinism from sources other than Go map order (time.Now in date completion by design; file-system order is sorted by the loader); ties in unstable sorts over already-deterministic input.",
 		Rules:       []func(*Ctx){ruleMapOrder, ruleDeterminismState},
 	})
 	add(&PropSpec{
 		ID:          "C02",
+		Technique:   "exact-operation tables over decimal calls on the verdict path (AST+types, SSA call sites), sibling agreement of the two analysis entry points by guard shape, sign-handling check of the number normaliser by slicing",
 		Explanation: "D-EXACT: every operation on decimal.Decimal in parser/analyzer/workspace/server (the path lexer value -> parseAmount -> CheckBalance/sumByCommodity -> message) is from the exact set (Add, Sub, Mul, Neg, Abs, IsZero, IsNegative, Cmp, String, NewFromString ...); T3: both analysis entry points call the balance check for every transaction and emit a diagnostic iff !Balanced; T4: the codes the analyzer writes are exactly the codes the server's filter switches on and UNBALANCED/MULTIPLE_INFERRED are gated by exactly the unbalanced-transactions setting; M-ORDER on the message builder.",
 		NotDecided:  "that separator normalisation, sign placement and cost conversion compute the intended number (value semantics of normalizeNumber, parseAmount, sumByCommodity); hledger's own balancing rule.",
 		Rules:       []func(*Ctx){ruleDecimalExact("internal/parser", "internal/analyzer", "internal/workspace", "internal/server"), ruleNumberSign, ruleT3, ruleT4, ruleMapOrder},
 	})
 	add(&PropSpec{
 		ID:          "C12",
+		Technique:   "effect summaries of index add/remove with parameter binding (inverse-operation table), snapshot coverage, must-clear of memoised caches per critical section, role-based fixpoint checks of the include-tree refresh",
 		Explanation: "T1: the workspace index's add and remove methods touch the same aggregates field by field and every add operation has an inverse on the remove side (+= / decrement, keyed append / keyed filter, per-file slot set / delete); an aggregate stored by overwrite and removed by key is reported as non-invertible. T2: the snapshot exports every aggregate. C12-CLEAR: every critical section of the workspace that mutates the resolved tree clears all memoised derived caches unconditionally. C12-REFRESH: the include-tree refresh is a fixpoint that recomputes reachability in every iteration and is invoked whenever the include list changed (element-wise comparison). M-ORDER: no map-iteration order reaches the index.",
 		NotDecided:  "equality of the incremental and the rebuilt view as values over update sequences (needs execution); file-system effects (files unreadable during refresh).",
 		Rules:       []func(*Ctx){ruleT1T2, ruleC12Clear, ruleC12Refresh, ruleC12Pair, ruleMapOrder},
 	})
 	add(&PropSpec{
 		ID:          "C10",
-		Explanation: "G-ANCESTOR: the mark placed in the set tested by the cycle check is removed on every exit of the function that places it (ancestor-stack discipline; otherwise a diamond is a false cycle). G-GUARD: every recursive load is reached only after the membership test that returns on a cycle (termination on cyclic graphs). G-DEPTH: the value compared with the depth limit is the length of the include stack. G-CONTINUE: the loop over include directives has no return/break, and every load error built on the recursion carries the include directive's range. Decided on go/cfg for all include graphs at once.",
+		Technique:   "typestate of include resolution on go/cfg: ancestor-stack discipline (mark/unmark on all exits), must-pass-through of cycle and already-loaded tests, canonical-path check of the resolver's return sites (SSA)",
+		Explanation: "G-ANCESTOR: the mark placed in the set tested by the cycle check is removed on every exit of the function that places it (ancestor-stack discipline; otherwise a diamond is a false cycle). G-GUARD: every recursive load is reached only after the membership test that returns on a cycle (termination on cyclic graphs). G-DEPTH: the value compared with the depth limit is the length of the include stack. G-CONTINUE: the loop over include directives has no return/break, and every load error built on the recursion carries the include directive's range. Decided on go/cfg for all include graphs at once. G-CANON: every path the resolver returns is the result of filepath.Clean/Join/Abs (a file is identified by its resolved path in the visited set, the cache and the result).",
 		NotDecided:  "path canonicalisation and glob matching semantics (ResolvePathSafe, doublestar); that each reachable file appears exactly once as a value-level fact (the 'loaded' set is checked only through G-CACHEPATH in C11).",
 		Rules:       []func(*Ctx){ruleLoaderCycle},
 	})
 	add(&PropSpec{
 		ID:          "C11",
-		Explanation: "G-CACHEPATH: every path that records an included file in the result continues to the call that processes that file's own include directives, so a cache hit and a cache miss do the same work; the cache value type holds per-file parse results only. G-INVALIDATE: the didChange and didSave handlers drop the changed file's cache entry on a path not conditioned on a workspace; the invalidation methods mutate the cache under the loader's write lock. G-ANCESTOR/G-GUARD/G-DEPTH as in C10 (cycle verdicts must not depend on history either).",
+		Technique:   "control-dependence analysis of the include step w.r.t. the cache lookup (AST+cfg), type reachability of the cache entry, hit-path use of every cache-entry field (SSA slicing), invalidation control dependence in change/save handlers",
+		Explanation: "G-CACHEPATH: every path that records an included file in the result continues to the call that processes that file's own include directives, so a cache hit and a cache miss do the same work; the cache value type holds per-file parse results only. G-INVALIDATE: the didChange and didSave handlers drop the changed file's cache entry on a path not conditioned on a workspace; the invalidation methods mutate the cache under the loader's write lock. G-ANCESTOR/G-GUARD/G-DEPTH as in C10 (cycle verdicts must not depend on history either). G-CACHEFIELDS: every field of the cache entry is read from an entry found by the cache lookup (nothing that the first load reports is lost on a hit). G-INVALIDATE is decided by control dependence (nested guard and early return alike).",
 		NotDecided:  "equality of results across a call history as values (needs execution); staleness of files changed on disk without an invalidation notification.",
 		Rules:       []func(*Ctx){ruleLoaderCache, ruleLoaderCycle},
 	})
 	add(&PropSpec{
 		ID:          "C13",
-		Explanation: "C-PUBLISH: every PublishDiagnostics call reachable from a goroutine the server starts is (directly, or through every caller of the function value it sits in) inside a critical section and on the 'equal' side of a comparison between per-document state keyed by the document and the version the analysis was started for; every go statement that starts such an analysis passes a version obtained by a call made synchronously in the notification handler to a function that increments that state under the same lock. C-ROOTS: census of go statements, serial dispatch (no AsyncHandler). Decided for all interleavings at once.",
+		Technique:   "must/may lockset data-flow over SSA with VTA call graph, dominance of version guards over publication, synchronous version numbering at go statements, publication-attempt dominance of every return of the background analysis",
+		Explanation: "C-PUBLISH: every PublishDiagnostics call reachable from a goroutine the server starts is (directly, or through every caller of the function value it sits in) inside a critical section and on the 'equal' side of a comparison between per-document state keyed by the document and the version the analysis was started for; every go statement that starts such an analysis passes a version obtained by a call made synchronously in the notification handler to a function that increments that state under the same lock. C-ROOTS: census of go statements, serial dispatch (no AsyncHandler). Decided for all interleavings at once. C13-SKIP: every return of the background analysis is dominated by a publication attempt, or depends only on the request itself (no client, no path), never on state left by earlier analyses.",
 		NotDecided:  "that the diagnostics of the latest version equal 'the diagnostics of the latest text' as values (relies on analysis being a function of the text, C15); fairness of the Go scheduler.",
 		Rules:       []func(*Ctx){ruleConcRoots, rulePublish},
 	})
 	add(&PropSpec{
 		ID:          "C14",
+		Technique:   "interprocedural may/must lockset analysis (lock order, blocking calls, consistent locksets per shared field), field-based taint for leaked guarded references, read-modify-write slicing across critical sections, goroutine reachability of workspace-tree writers",
 		Explanation: "C-ORDER: may-lockset dataflow over SSA (interprocedural, through closures via the VTA call graph): no mutex is acquired while it may already be held (incl. nested read locks), and the held->acquired graph is acyclic. C-BLOCK: client methods whose implementation awaits a response are never reachable from a handler without a go statement and never called with a lock held; notifications are sent with at most the publication lock held. C-LOCKSET: every field of the long-lived shared structs that is written outside the initialisation phase and accessed from a server-started goroutine has a common lock over all its accesses (must-lockset). C-LEAK: getters that hand out a guarded map/pointer field are listed; in-place mutation of a handed-out object and writes through a handed-out reference are reported. C-RMW: a value stored into lock-protected shared state (field, map element, sync.Map entry) never derives - through callees' results or callers' arguments - from a read of the same field made in a different critical section when some writer of the field runs on a server-started goroutine (no lost update). C14-ORDER: no function that writes the workspace's resolved include tree is reachable from a goroutine the server starts (the workspace follows the notifications synchronously and in order). C-ROOTS.",
 		NotDecided:  "races inside third-party libraries; aliasing beyond the field-based abstraction; that each response equals the state at handling time as a value.",
 		Assumptions: []string{"Initialize is handled before any other message (LSP lifecycle)", "handlers are dispatched serially by jsonrpc2 (re-checked by C-ROOTS)"},
@@ -64,6 +71,7 @@ func allSpecs() map[string]*PropSpec {
 	})
 	add(&PropSpec{
 		ID:          "C19",
+		Technique:   "settings model extracted from the parser (key, converter, guarded store per leaf incl. helper functions), normaliser guard table, panic-instruction scan of everything reachable from the parser, lockset and read-modify-write analysis, overlay check of update functions",
 		Explanation: "T6: every leaf of the settings struct (enumerated from the type definitions) is assigned by the settings parser in a nested-key and a dotted-key form with the same spelling, each assignment guarded by its converter's ok result and fed from the converted value (ill-typed or unknown entries leave the previous value unchanged); no key feeds two leaves; every numeric leaf has a non-positive guard in the normaliser; every leaf is read by some feature outside the parser. C19-CONVERT: converters accept by type only (no range filter that would bypass the normaliser's default fallback, boolean spellings true/false only). C19-TOTAL: no module function reachable from the settings parser contains an unchecked assertion, index, slice, non-constant division or panic, and its recursion is on a member of its argument. C-LOCKSET on the settings struct; C-RMW: a configuration refresh reads the current settings, overlays the payload and stores the result inside one critical section, so that of two concurrent refreshes neither loses the other's recognised values. C19-OVERLAY: outside the initialisation phase every store into the settings derives from the current settings, and every function applied to the current settings at the call sites of the update routine returns a value computed from its argument (a wholesale replacement is only accepted from the constructor and Initialize).",
 		NotDecided:  "feature switches after initialisation (capabilities are computed once in Initialize); that a recognised value changes behaviour in the intended way (value semantics of each feature).",
 		Rules:       []func(*Ctx){ruleSettings, ruleLockset, ruleRMW, ruleOverlay},
@@ -71,42 +79,49 @@ func allSpecs() map[string]*PropSpec {
 	wsFresh := []func(*Ctx){ruleT1T2, ruleC12Clear, ruleC12Refresh, ruleC12Pair}
 	add(&PropSpec{
 		ID:          "C18",
+		Technique:   "guard-shape agreement of analysis entry points incl. helpers, writer/reader table of diagnostic codes vs. settings filter (decision table from switch or if-chain), control dependence of emission on declared and seen sets, SSA slicing of declaration sources",
 		Explanation: "T3: both analysis entry points run the undeclared-account/commodity checks under the same guard (len(declared set) > 0) for every transaction. T4: each warning code is gated by exactly its own settings field, the filter is applied to every analyzer diagnostic, its default is 'publish'. T9: the undeclared-commodity check visits every amount-bearing access path of a posting (amount, cost, assertion; derived from the ast type definitions). C18-ONCE: one warning per symbol and transaction (declared set and per-transaction seen set both guard the emission). C18-SOURCES: on the diagnostics path the declarations handed to the analyzer depend on the workspace's declared sets AND on the include tree loaded from the analysed content, and the workspace lookups are not conditioned on any setting. Workspace freshness rules (C12-CLEAR/REFRESH/PAIR, T1/T2) because declared sets are served from the workspace caches.",
 		NotDecided:  "the declared-predicate itself (prefix / standard top-level category matching in isAccountDeclared).",
 		Rules:       append([]func(*Ctx){ruleT3, ruleT4, ruleT9("T9", [2]string{"internal/analyzer", "checkUndeclaredCommodities"}), ruleSeenOnce, ruleC18Sources}, wsFresh...),
 	})
 	add(&PropSpec{
 		ID:          "C20",
+		Technique:   "exact-operation table for decimal sums, sibling agreement of balance calculators, SSA identity of the transaction list feeding sums and counts, once-only structure of AllTransactions and de-duplicated growth of FileOrder (cfg must-pass-through)",
 		Explanation: "D-EXACT: hover sums use exact decimal operations only (Add; String rendering). T10: the two account-balance calculators aggregate postings identically (skip amount-less postings, accumulate Quantity with Add). C20-TREE: in the hover handler balances are summed over the resolved tree's AllTransactions() and the very same list feeds the posting/transaction counts. C20-ONCE: AllTransactions is 'primary once + one pass over FileOrder' and every growth site of FileOrder is de-duplicated. Loader rules (G-ONCE, G-CACHEPATH, G-CACHEINDEP) and workspace freshness rules (C12-*) because the set of aggregated files comes from them. M-ORDER on the hover builders.",
 		NotDecided:  "the sums and counts as values; which postings 'count' (value semantics); number-notation parsing (normalizeNumber).",
 		Rules:       append([]func(*Ctx){ruleDecimalExact("internal/analyzer", "internal/server", "internal/parser"), ruleNumberSign, ruleC20, ruleLoaderCache, ruleLoaderCycle, ruleMapOrder}, wsFresh...),
 	})
 	add(&PropSpec{
 		ID:          "C09",
-		Explanation: "H-PRIMARY: the function that returns a resolved tree together with the path of its primary journal pairs the workspace tree with the workspace root journal path and the per-document tree with the document path; definition/references/rename pass tree and path from one such lookup; the primary journal is keyed by that path. T9: commodity references visit amount, cost and assertion commodities. T11: the three reference collectors share one skeleton (sorted paths, URI of each location derived from the path of the journal being walked, common sort+dedup), the dedup equality covers URI and all coordinates, rename edits are a 1:1 map of the references including declarations. C12-PAIR and workspace freshness: the tree that is searched is maintained consistently. M-ORDER.",
+		Technique:   "SSA slicing of Location constructions (URI vs journal key pairing), return-site analysis of the tree/primary-path function with control dependence, component coverage of the dedup equality, map-iteration-order effect analysis",
+		Explanation: "H-PRIMARY: the function that returns a resolved tree together with the path of its primary journal pairs the workspace tree with the workspace root journal path and the per-document tree with the document path; definition/references/rename pass tree and path from one such lookup; the primary journal is keyed by that path. T9: commodity references visit amount, cost and assertion commodities. T11: the three reference collectors share one skeleton (sorted paths, URI of each location derived from the path of the journal being walked, common sort+dedup), the dedup equality covers URI and all coordinates, rename edits are a 1:1 map of the references including declarations. C12-PAIR and workspace freshness: the tree that is searched is maintained consistently. M-ORDER. C09-TREE: the journal map that is searched contains the files of the given tree on every return (no short cut that looks at the requesting document only); the workspace tree also serves the workspace root itself.",
 		NotDecided:  "that the range inside each location is the right one (C08); parse equality after applying the edits; unsaved edits of files that are not open.",
 		Rules:       append([]func(*Ctx){ruleC09, ruleT9("T9", [2]string{"internal/server", "findCommodityReferences"}), ruleMapOrder}, wsFresh...),
 	})
 	add(&PropSpec{
 		ID:          "C16",
+		Technique:   "SSA pipeline analysis of the completion handler (generate, filter, rank, truncate by data flow and dominance), comparator direction check, edit-range stores traced to the request position, unit analysis",
 		Explanation: "I-LIMIT: the list returned by completion is the ranked list or its zero-based prefix ranked[:MaxResults] taken under len(ranked) > MaxResults, and the limit is read only by the normaliser, the settings parser and that truncation (so a smaller maximum yields a prefix of a larger one and at most the maximum is returned). I-ORDER: generate -> filter -> rank -> truncate by data flow. I-FLAG: the filter's mode argument is the unmodified fuzzyMatching setting from the per-request settings snapshot. I-RANK: the ranking comparator is descending in score and in use count. I-RANGE: the replace range ends at the request position, its start is a byte offset clamped to the cursor and converted to UTF-16. M-ORDER (item order), workspace freshness (names offered exist in the workspace) and T6 for the two completion settings.",
 		NotDecided:  "soundness/completeness of the offered set against the symbol table, the fuzzy and prefix predicates, the context classifier (value semantics).",
 		Rules:       append([]func(*Ctx){rulePipeline, ruleMapOrder, ruleUnits("module", nil)}, wsFresh...),
 	})
 	add(&PropSpec{
 		ID:          "C08",
+		Technique:   "unit (dimension) analysis over SSA: UTF-16 units, bytes, runes, 0/1-based lines and columns; mixing, stores into protocol positions, index/slice operands and clamps",
 		Explanation: "units: every integer in the module gets a unit (byte offset / rune count / UTF-16 code unit / line) from a table of sources (len, strings.Index*, utf8.*, lsputil conversions, lexer and AST position fields, protocol.Position fields, semantic-token fields) and the unit is propagated through arithmetic, conversions, phis, calls and struct fields. Reported: arithmetic or comparison between different units (U-MIX), a value stored into a field of another unit, e.g. a rune or byte count into protocol.Position.Character (U-STORE), a wrong-unit argument to a conversion helper (U-ARG), a string indexed by a non-byte quantity (U-INDEX). The column unit of the lexer/AST is read from the lexer's own advance code on every run.",
 		NotDecided:  "that a unit-correct range is the right range (payee column estimated from the date width, fold end taken from the next token); containment in the document as a value-level fact.",
 		Rules:       []func(*Ctx){ruleUnits("module", nil), ruleUnitClamp},
 	})
 	add(&PropSpec{
 		ID:          "C17",
-		Explanation: "T5: every TokenType constant indexes a legend entry of its own kind and every value stored into semanticToken.tokenType is a constant below the legend length. T12: full, range and delta handlers encode the tokenizer's output for the text read from the document store in the same request; the array cached under a result id is exactly the array sent with that id; range requests never touch the cache and are the full token list restricted by the line filter; a delta is computed from (cached data, newly encoded data) and only when the cached id equals previousResultId. L-POS: every lexer token takes its start position before its scanner consumes input (zero-width constructor only for EOF). T15w: token kinds whose value drops delimiters (derived from the lexer) get their width adjusted in the semantic tokenizer. units: token line/col/length are UTF-16 quantities.",
+		Technique:   "table check of the token legend against constants and stores (SSA constant sets), SSA slicing of full/range/delta handlers (exact document text, encoder output identity, edit constructions, result-id guard), token start and width from the lexer interpretation",
+		Explanation: "T5: every TokenType constant indexes a legend entry of its own kind and every value stored into semanticToken.tokenType is a constant below the legend length. T12: full, range and delta handlers encode the tokenizer's output for the text read from the document store in the same request; the array cached under a result id is exactly the array sent with that id; range requests never touch the cache and are the full token list restricted by the line filter; a delta is computed from (cached data, newly encoded data) and only when the cached id equals previousResultId. L-POS: every lexer token takes its start position before its scanner consumes input (zero-width constructor only for EOF). T15w: token kinds whose value drops delimiters (derived from the lexer) get their width adjusted in the semantic tokenizer. units: token line/col/length are UTF-16 quantities. The tokenizer is handed the document text itself (not a fragment); edits are found as SemanticTokensEdit constructions wherever they are built; a whole-array replacement deletes exactly len(cached data).",
 		NotDecided:  "ordering and non-overlap of the emitted sequence (run-time sortedness), unsigned wrap-around in the encoder and in edit computations, equality of the client-side rebuilt array with the full response over request histories beyond T12.",
 		Rules:       []func(*Ctx){ruleSemantic, ruleLexPos, ruleUnits("module", nil)},
 	})
 	add(&PropSpec{
 		ID:          "C01",
+		Technique:   "SSA data-flow and field-sensitive slicing of the change handler (thread of the document text through the loop over content changes), unit analysis of offsets (UTF-16 vs byte), census of stores into the document store",
 		Explanation: "C01-THREAD: in the change handler the stored text is a loop-carried value whose only sources are the stored text, a range-less change's text and the ranged applier applied to the running text, visited in list order. C01-STORE: that value is stored after the loop under the notification's URI; didOpen stores the opened text unconditionally; didClose deletes it. C01-OPTIONAL: whole-document replacement is selected by a nil test of an optional *Range, and the server binary routes textDocument/didChange to that handler through an interceptor installed on the connection. C01-CONV: the UTF-16 column is converted against the text of its own line (clamp to line end), lines past the end map to the end of the text. C01-CLAMP: both splice bounds depend on both converted positions (ordering swap) and on len(content). units: UTF-16 / byte / rune quantities are never mixed. C01-SOURCE: every parse on a handler path reads the text from the document store in the same request. C-CACHE: per-document caches filled by handlers are dropped by the change handler. C-FRESH: state written by background goroutines and read by handlers is reported.",
 		NotDecided:  "equality of the stored text with a reference client's buffer over all histories (needs execution); invalid UTF-8 (cannot arrive through JSON).",
 		Rules:       []func(*Ctx){ruleC01, ruleUnits("module", nil)},
@@ -114,30 +129,35 @@ func allSpecs() map[string]*PropSpec {
 	fmtRules := []func(*Ctx){ruleFormatterEdits, ruleT14, ruleT15, ruleDecimalLossyGuard, ruleUnits("module", nil), ruleRepeat}
 	add(&PropSpec{
 		ID:          "C04",
-		Explanation: "D-LOSSY-GUARD: a rounding display format is applied to a quantity only under a test of that quantity's Exponent() (no digit loss). C04-ERRS: posting lines on which the parser reported an error are not rewritten, and the formatting handler passes the parser's errors to the formatter. T13: the formatter builds exactly two kinds of edits - a whole-line rewrite of a posting line and a deletion of trailing blanks with constant empty text - so non-posting lines change only by loss of trailing blanks. T14: every source-derived field the parser records in a posting (status, virtual kind, account, quantity, raw quantity, sign placement, commodity symbol/side/quoting, cost, assertion, comment) is read by the posting formatter. T15: delimiters the lexer drops (quotes of a quoted commodity, the ';' of a comment) are restored exactly. units on edit ranges. Workspace freshness (commodity formats come from the workspace caches).",
+		Technique:   "SSA value-flow of every TextEdit construction (ranges, text), control dependence of edits on the posting-line and error-line sets, field coverage tables between parser and formatter, unit analysis of columns",
+		Explanation: "D-LOSSY-GUARD: a rounding display format is applied to a quantity only under a test of that quantity's Exponent() (no digit loss). C04-ERRS: posting lines on which the parser reported an error are not rewritten, and the formatting handler passes the parser's errors to the formatter. T13: the formatter builds exactly two kinds of edits - a whole-line rewrite of a posting line and a deletion of trailing blanks with constant empty text - so non-posting lines change only by loss of trailing blanks. T14: every source-derived field the parser records in a posting (status, virtual kind, account, quantity, raw quantity, sign placement, commodity symbol/side/quoting, cost, assertion, comment) is read by the posting formatter. T15: delimiters the lexer drops (quotes of a quoted commodity, the ';' of a comment) are restored exactly. units on edit ranges. Workspace freshness (commodity formats come from the workspace caches). Edits are found as TextEdit constructions in SSA form; the conditions are control dependences (a guard may be written as nested if or early continue, in the loop or in a helper).",
 		NotDecided:  "that re-parsing the formatted text yields the same tree (round-trip equality as a value); the effect of formats on meaning beyond digit loss.",
 		Rules:       append(append([]func(*Ctx){}, fmtRules...), wsFresh...),
 	})
 	add(&PropSpec{
 		ID:          "C05",
-		Explanation: "T13: every formatter edit stays on one line, posting rewrites span [0, LineUTF16Len(line)], trim edits start at UTF16Len(trimmed) and skip exactly the lines keyed by the expression that keys posting rewrites (no two edits overlap). units: edit characters are UTF-16 quantities, alignment arithmetic never mixes units. T15: nothing is added on re-emission that the lexer does not strip again (comment blank), so the fixed point does not drift. C05-INDENT: the common amount column and the emitted indent both derive from Options.IndentSize, the column honours MinAlignmentColumn. C06-REPEAT: padding counts are non-negative.",
+		Technique:   "SSA value-flow and control dependence of TextEdit constructions, path-sensitive interprocedural slicing of padding counts back to the configured indent and minimum column",
+		Explanation: "T13: every formatter edit stays on one line, posting rewrites span [0, LineUTF16Len(line)], trim edits start at UTF16Len(trimmed) and skip exactly the lines keyed by the expression that keys posting rewrites (no two edits overlap). units: edit characters are UTF-16 quantities, alignment arithmetic never mixes units. T15: nothing is added on re-emission that the lexer does not strip again (comment blank), so the fixed point does not drift. C05-INDENT: the common amount column and the emitted indent both derive from Options.IndentSize, the column honours MinAlignmentColumn. C06-REPEAT: padding counts are non-negative. C05-INDENT: some padding count depends (path-sensitively, across calls) on both Options.IndentSize and Options.MinAlignmentColumn, and an indent string is built from IndentSize alone.",
 		NotDecided:  "idempotence as an equation on outputs; that all amounts start in the common column for every input (value-level).",
 		Rules:       fmtRules,
 	})
 	add(&PropSpec{
 		ID:          "C07",
-		Explanation: "L-NEWLINE (abstract interpretation of the lexer over byte classes, all calling contexts from Lexer.Next): at every position-advancing site outside the newline scanner the current byte cannot be '\\n', and the line counter / line-start flag are written only by the newline scanner (so no token spans a line break and the token sequence of a line depends only on that line's bytes). L-PROGRESS as in C06.",
+		Technique:   "abstract interpretation of the lexer (line accounting, line-start flag, token start) and of the parser (recovery routine identified by its abstract effect; resynchronisation only after consumed input)",
+		Explanation: "L-NEWLINE (abstract interpretation of the lexer over byte classes, all calling contexts from Lexer.Next): at every position-advancing site outside the newline scanner the current byte cannot be '\\n', and the line counter / line-start flag are written only by the newline scanner (so no token spans a line break and the token sequence of a line depends only on that line's bytes). L-PROGRESS as in C06. L-NEWLINE is decided from the interpretation itself: an advance may consume a line break only where the current byte is known to be exactly '\\n', and at every token return the number of consumed line breaks equals the number of increments of the line counter and the line-start flag was only set together with a consumed line break (no scanner is exempt by name). L-STEP: the position only moves by the width the decoder reported for the current rune (or by one over a known ASCII byte). L-POS: a token's Pos is a position captured before anything but blanks of the scan was consumed. Recovery routines and the dispatcher are identified by their abstract effect, not by name.",
 		NotDecided:  "equality of the two parses outside the damaged entry as values.",
 		Rules:       []func(*Ctx){ruleLexer, ruleParser},
 	})
 	add(&PropSpec{
 		ID:          "C06",
-		Explanation: "L-PROGRESS (byte-class abstract interpretation of the lexer, all calling contexts): every non-EOF token return happens after the position strictly increased since Next was entered, and EOF is returned only at the end of input - hence tokens never overlap, stay inside the input and tokenisation terminates with EOF for every byte string. P-PROGRESS (token-kind abstract interpretation of the parser): every path back to the head of a token loop consumes a token. LOOP-CENSUS: every other for-loop modifies a variable of its condition on every path (worklist/fixpoint loops admitted by name with their argument). REC-CENSUS: the only recursion is the guarded include recursion and the structural settings recursion. D-EXPONENT: a parsed quantity passes an Exponent() bound before it enters the tree. C06-REPEAT: Repeat counts are non-negative and configuration integers that reach them are clamped. C06-PANIC: no explicit panic, unchecked assertion or non-constant integer division on a request path. C06-BOUNDS: byte offsets converted from client columns are clamped before slicing. units (no byte/rune/UTF-16 mix feeding an index).",
+		Technique:   "abstract interpretation of lexer (byte classes, step width, progress) and parser (token kinds, progress), loop and recursion census with termination arguments by role, panic-instruction scan over SSA reachable from handlers, bounds and repeat-count clamps by slicing",
+		Explanation: "L-PROGRESS (byte-class abstract interpretation of the lexer, all calling contexts): every non-EOF token return happens after the position strictly increased since Next was entered, and EOF is returned only at the end of input - hence tokens never overlap, stay inside the input and tokenisation terminates with EOF for every byte string. P-PROGRESS (token-kind abstract interpretation of the parser): every path back to the head of a token loop consumes a token. LOOP-CENSUS: every other for-loop modifies a variable of its condition on every path (worklist/fixpoint loops admitted by name with their argument). REC-CENSUS: the only recursion is the guarded include recursion and the structural settings recursion. D-EXPONENT: a parsed quantity passes an Exponent() bound before it enters the tree. C06-REPEAT: Repeat counts are non-negative and configuration integers that reach them are clamped. C06-PANIC: no explicit panic, unchecked assertion or non-constant integer division on a request path. C06-BOUNDS: byte offsets converted from client columns are clamped before slicing. units (no byte/rune/UTF-16 mix feeding an index). L-STEP: the lexer position only moves by the decoded width of the current rune, so it cannot leave the input (slice bounds) or skip bytes.",
 		NotDecided:  "slice/index bounds in general (no sound bound analysis in reach), time proportional to size beyond loop progress (e.g. repeated lookahead), unsigned wrap-around in the token encoder.",
 		Rules:       []func(*Ctx){ruleLexer, ruleParser, ruleLoopCensus, ruleRecCensus, ruleDecimalExponent, ruleRepeat, rulePanic, ruleBounds, ruleUnits("module", nil)},
 	})
 	add(&PropSpec{
 		ID:          "C03",
+		Technique:   "table agreement between lexer keyword set and parser switch (AST+types), abstract interpretation of the lexer over byte classes and of the parser over token kinds (progress, resynchronisation)",
 		Explanation: "Only the narrow structural part of this property is decided. T7: every directive keyword the parser has a case for is in the lexer's keyword set, and every directive the property names (account, commodity, include, P, Y, D) has a parser case. T8: every token kind the lexer can emit is tested for by some parser branch. D-EXACT at the point quantities are built (decimal.NewFromString only). L-PROGRESS/P-PROGRESS/L-NEWLINE: tokens cover the input left to right, never span a line break and every loop of lexer and parser consumes input (no supported journal can hang or shift line numbers).",
 		NotDecided:  "MOST OF THE PROPERTY: that the context-free, first-character lexer heuristics classify every spelling of every supported construct correctly (upper-case or digit-leading descriptions, colons in descriptions, CRLF line ends, spaces before the first colon of a virtual account), number-notation normalisation, and the equality of the extracted structure with the written one. These are value semantics of heuristics; no structural fact in reach separates a right heuristic from a wrong one (two known counter-examples on today's tree - CRLF input and an all-caps description yield syntax errors - are invisible to every rule here).",
 		Rules:       []func(*Ctx){ruleT7T8, ruleDecimalExact("internal/parser"), ruleNumberSign, ruleLexer, ruleParser},
